@@ -20,6 +20,9 @@ def run(rep: Report, repo: Repo, tier: str) -> None:
     from . import render
     with rep.isolated():
         render.rule_member_independence(rep, repo, "C08-R5")
+    # a documented command produces its entry whatever the switches say: it is rejected only for its own arity
+    with rep.isolated():
+        protocol.rule_rejections(rep, repo, "C08-R6")
     if tier == "thorough":
         from . import trace_rules
         with rep.isolated():
